@@ -1,4 +1,5 @@
 import Labella.Driver.Parse
+import Labella.Model.Pipeline
 import Labella.Model.LayoutSpec
 import Labella.Model.EngineT
 import Labella.Model.Vpsc
@@ -256,6 +257,37 @@ def mhistCmd (f : List String) : Option String :=
     let same := w.outs == obs
     let reordered := (w.lists.zip w.created).any (fun p => p.1 != p.2)
     some s!"mhist same={okStr same} computes={w.outs.length} implcomputes={obs.length} nodes={w.store.size} engines={w.engines.length} lists={w.lists.length} reordered={if reordered then 1 else 0}"
+  | _ => none
+
+/-- `pipe|dir|layerGap|ns~ls~mn~mx~alg~den~sw|ideal:w:h;…|layer:id:ox:oy:w:h;…` — `Timeline.compute` + an emitter against the COMPOSED model
+`Pipeline.drawn` (Model/Pipeline.lean): from the nodes as `get_nodes` built them (axis position, padded drawn size) and the options, the model
+computes layers, positions and every drawn box; the boxes one back-end printed (with the layer each node reports) must be EQUAL.  Used on
+timelines whose numbers are dyadic, so that the floating-point run and the exact model cannot part on a rounding tie.  The predicates of
+`C08.pipeline_boxes` are evaluated on the model's output. -/
+def pipeCmd (f : List String) : Option String :=
+  match f with
+  | [dir, lg, fo, items, boxes] => do
+    let dir ← (match dir with | "up" => some Render.Dir.up | "down" => some .down | "left" => some .left | "right" => some .right | _ => none)
+    let lg ← parseRat lg
+    let fo ← (match fo.splitOn "~" with
+      | [ns, ls, mn, mx, alg, den, sw] => parseFOpts ns ls mn mx alg den sw
+      | _ => none)
+    let items ← parseList ";" (fun s => match s.splitOn ":" with
+      | [i, w, h] => do some ({ ideal := ← parseRat i, w := ← parseRat w, h := ← parseRat h } : Pipeline.PItem)
+      | _ => none) items
+    let boxes ← parseList ";" (fun s => match s.splitOn ":" with
+      | [l, id, ox, oy, w, h] => do some ((← parseNat l, ← parseNat id), (← parseRat ox, ← parseRat oy, ← parseRat w, ← parseRat h))
+      | _ => none) boxes
+    let d := Pipeline.drawn dir lg fo items
+    let key (p : (Nat × Nat) × (Rat × Rat × Rat × Rat)) := p.1.2
+    let model := (d.map (fun x => ((x.layer, x.id), (x.box.ox, x.box.oy, x.box.w, x.box.h)))).mergeSort (fun a b => key a ≤ key b)
+    let impl := boxes.mergeSort (fun a b => key a ≤ key b)
+    let same := model == impl
+    let sameLayers := model.map (·.1) == impl.map (·.1)
+    let c08 := decide (3 ≤ fo.nodeSpacing) && decide (0 ≤ fo.lineSpacing) && decide (0 ≤ fo.stubWidth) && decide (1 ≤ lg)
+    let mOK := !c08 || (Render.pairwiseDisjointB (d.map (·.box)) && (d.all (fun x => Render.onSideB dir (lg - 1) x.box)) &&
+      Render.nestedB dir (d.map (fun x => (x.layer, x.box))))
+    some s!"pipe same={okStr same} layers={okStr sameLayers} model={okStr mOK} n={items.length} nlayers={(d.map (·.layer)).foldl max 0 + 1} c08={if c08 then 1 else 0}"
   | _ => none
 
 end Labella.Driver
